@@ -10,6 +10,7 @@ import (
 	"errors"
 	"fmt"
 	"net"
+	"net/http"
 	"net/url"
 	"sort"
 	"strings"
@@ -335,6 +336,13 @@ func (o *Order) Finalize(ctx context.Context, db DB, csr *x509.CertificateReques
 				Detail: webhookErr.Message,
 			})
 			return acmeError
+		}
+
+		// A request that the authority refuses - names outside a policy or
+		// outside the name constraints of the CA - is not a server error.
+		var sc interface{ StatusCode() int }
+		if errors.As(err, &sc) && sc.StatusCode() == http.StatusForbidden {
+			return NewDetailedError(ErrorRejectedIdentifierType, err.Error())
 		}
 
 		return WrapErrorISE(err, "error signing certificate for order %s", o.ID)
